@@ -46,7 +46,7 @@ ASSUMPTIONS = [
     "generated commands are deterministic functions of declared inputs and dependency outputs (the property's premise)",
 ]
 
-FAMILIES_QUICK = [("edits", 5), ("alias", 4), ("shift", 3), ("tamper", 4), ("dirs", 6), ("swap", 5), ("shared", 5), ("wipe", 3), ("taint", 2), ("disabled", 3), ("nocache", 2)]
+FAMILIES_QUICK = [("edits", 4), ("alias", 3), ("shift", 3), ("tamper", 4), ("dirs", 6), ("swap", 5), ("shared", 5), ("wipe", 3), ("taint", 2), ("disabled", 3), ("nocache", 2)]
 FAMILIES_THOROUGH = [(f, n * 18) for f, n in FAMILIES_QUICK]
 
 
